@@ -42,8 +42,17 @@ Section Gen.
     let st1 := gen_integrate E st0 in
     let st2 := gen_normalize E st1 in
     st2.
+  Definition gen_createFromProjections (E : env K) (st0 : mst K) : mst K :=
+    let st1 := set_data K (fun c0 c1 c2 : Z => if (inr 0 (e_nb E) c0 && inr 0 (e_nx E) c1 && inr 0 (e_ny E) c2)%bool then ((m_proj st0 0 c0 c1) * (m_proj st0 1 c0 c2)) else m_data st0 c0 c1 c2) st0 in
+    let st2 := gen_updateXProjection E st1 in
+    let st3 := gen_integrate E st2 in
+    let st4 := gen_normalize E st3 in
+    st4.
   (* member calls that are direct statements of the principal constructor's body, in order *)
   Definition gen_ctor_refresh (E : env K) (st : mst K) : mst K := gen_integrate E (gen_updateYProjection E (gen_updateXProjection E st)).
   (* member calls that are direct statements of the operator='s body, in order *)
   Definition gen_assign_refresh (E : env K) (st : mst K) : mst K := gen_integrate E (gen_updateYProjection E (gen_updateXProjection E st)).
+  (* the principal constructor called without start data (data == nullptr), once the projections are set: the member
+     calls of that branch, then the refresh sequence *)
+  Definition gen_ctor_fresh (E : env K) (st : mst K) : mst K := gen_integrate E (gen_updateYProjection E (gen_updateXProjection E (gen_createFromProjections E st))).
 End Gen.
